@@ -1549,7 +1549,7 @@ fn metrics_rlib() -> (std::path::PathBuf, std::path::PathBuf) {
 }
 
 /// type-checks `src`; Ok(()) if rustc accepts it, Err(stderr) otherwise
-fn rustc_check(dir: &std::path::Path, name: &str, src: &str) -> Result<(), String> {
+pub(crate) fn rustc_check(dir: &std::path::Path, name: &str, src: &str) -> Result<(), String> {
     let (rlib, deps) = metrics_rlib();
     let file = dir.join(format!("{}.rs", name));
     std::fs::write(&file, src).expect("write probe");
